@@ -300,6 +300,14 @@ def run(ctx):
     from rules import listlinks
     listlinks.check(ctx, "R4.4", lambda file, name: name == "model_ovni_finish", minimum=1)
 
+    # ---- R4.6 ---------------------------------------------------------------
+    ctx.rule("R4.6", "no CPU is oversubscribed in an accepted history: whichever event makes a second thread run on a "
+             "physical CPU (execute, resume, a migration), the recount it triggers refuses it (C05 R5.2's evaluation of "
+             "cpu_update on every list of up to three threads; R5.1 shows that every such event recounts)")
+    from rules import round3
+    round3.share(ctx, "R4.6", "C05", lambda i_: i_["rule"] == "R5.2" and "oversubscribed" in i_["inst"], "recount:",
+                 "a history in which two threads run on one physical CPU is accepted", 10)
+
 
 
 def _stname(names, prog, v):
